@@ -1,7 +1,7 @@
 (* C08 - kernel K3 = CodeBuilder.get_dialect_or_config_option translated from /repo on this run:
    lookup order, and its link to OptProj.look. *)
 From Coq Require Import List String ZArith Bool.
-From Verif Require Import PyK OptProj K3Proofs.
+From Verif Require Import PyK OptProj OptEnc K3Proofs.
 From VerifGen Require Import K3.
 Import ListNotations.
 Open Scope string_scope.
